@@ -6,6 +6,7 @@ CONSTANTS
   MetricKinds <- MetricKindsAll
   Levels <- LevelsAll
   TimeUnits <- UnitsAll
+  Shapes <- ShapesAll
   Accepts <- Acc
   EventMs = 1700000123
   ArrivalMs = 1790000456
